@@ -68,6 +68,21 @@ def polygon_bins(chk, ld):
                 if not ok:
                     continue
                 val, mask = e.args[0]
+                if getattr(body, "cpython", None) is not None and cname != "vertical":
+                    # concretisation cross-check of the engine: the same statements run by CPython + numpy on concrete data
+                    from pyvc import concrete
+                    thc = np.array([0.1, 0.9, 1.4, 2.2, 3.0, 3.9, 4.6, 5.5, 6.2])
+                    av = {a0: 0.6, a1: 1.2, a2: 4.4}
+                    mc, bc_, x0c = (0.7, 1.3, 0.8) if cname == "general" else (0.0, 1.3, 0.8)
+                    oldc = np.full(len(thc), -1.0)
+                    p1c = np.zeros((3, 3))
+                    p1c[i, 0] = x0c
+                    envc = {"angles": thc.copy(), "angles_to_vertices": np.array([av[a0], av[a1], av[a2]]), "angles_shifted": np.array([av[a1], av[a2], 2 * np.pi + 1e-6]),
+                            "i": i, "num_verts": 3, "slopes": np.array([1.0, mc, mc]), "y_int": np.array([1.0, bc_, bc_]), "distances": oldc.copy(), "p1": p1c}
+                    with np.errstate(all="ignore"):
+                        refd = body.cpython(**{k_: envc[k_] for k_ in params})["distances"]
+                    env = concrete.Env(sizes={TH: len(thc)}, arrays={"theta": thc, "dist_before": oldc}, scalars={**av, m: mc, b: bc_, x0: x0c})
+                    concrete.cross_check(chk, f"ConvexPolygon._distance_to_surface_from.loop_body[{tag}]", fkey, e, env, (TH,), refd, rtol=1e-9)
                 lo, hi = (a1, a2) if i == 1 else (a2, 2 * sp.pi + eps)
                 want = sp.And(sp.Ge(t, lo), sp.Lt(t, hi))
                 if i == 2:
